@@ -1,21 +1,23 @@
 (* Non-vacuity and refuted witnesses for C03 (values in Z; true division replaced by Z division, which
    like Python raises on a zero divisor). *)
 From Coq Require Import List String Bool ZArith.
-From PAFC01 Require Import ModelTree.
-From PAFC03 Require Import Model Proofs Proofs2 Proofs3.
+From PAFC01 Require Import ModelTree Proofs8.
+From PAFC03 Require Import Model Proofs Proofs2 Proofs3 Proofs4.
 Import ListNotations.
 Local Open Scope string_scope.
 Local Open Scope list_scope.
 
 Definition zbin (o : binop) (a b : Z) : Z :=
-  match o with OAdd => (a + b)%Z | OSub => (a - b)%Z | OMul => (a * b)%Z | ODiv => (a / b)%Z end.
-Definition zbin_ok (o : binop) (a b : Z) : bool := match o with ODiv => negb (Z.eqb b 0) | _ => true end.
+  match o with OAdd => (a + b)%Z | OSub => (a - b)%Z | OMul => (a * b)%Z | ODiv => (a / b)%Z
+  | OFloorDiv => (a / b)%Z | OMod => (a mod b)%Z end.   (* Z.div / Z.modulo: floor division, remainder with the sign of the divisor *)
+Definition zun (o : unop) (a : Z) : Z := match o with UNeg => (- a)%Z | UAbs => Z.abs a end.
+Definition zbin_ok (o : binop) (a b : Z) : bool := match o with ODiv | OFloorDiv | OMod => negb (Z.eqb b 0) | _ => true end.
 Definition zof_bool (b : bool) : Z := if b then 1%Z else 0%Z.
 
-Notation zrun := (run Z zbin zbin_ok Z.ltb Z.leb zof_bool).
-Notation zgate := (gate Z zbin zbin_ok Z.ltb Z.leb zof_bool).
-Notation zholds := (holds Z zbin zbin_ok Z.ltb Z.leb zof_bool).
-Notation zstatus := (status Z zbin zbin_ok Z.ltb Z.leb zof_bool).
+Notation zrun := (run Z zbin zun zbin_ok Z.ltb Z.leb zof_bool).
+Notation zgate := (gate Z zbin zun zbin_ok Z.ltb Z.leb zof_bool).
+Notation zholds := (holds Z zbin zun zbin_ok Z.ltb Z.leb zof_bool).
+Notation zstatus := (status Z zbin zun zbin_ok Z.ltb Z.leb zof_bool).
 Notation zchain := (chain Z Z.ltb Z.leb).
 Notation zchain_legacy := (chain_legacy Z Z.ltb Z.leb).
 Notation zdenote := (denote Z Z.ltb Z.leb).
@@ -47,9 +49,9 @@ Proof. vm_compute. auto. Qed.
 (* the guards of the _partial theorems are satisfiable *)
 Example guards_wf : levels_wf Z ex_lv ex.
 Proof. intros e [<-|[<-|[<-|[]]]]; reflexivity. Qed.
-Example guards_ldef : ldef Z zbin zbin_ok Z.ltb Z.leb zof_bool (vec_args Z ex [2; 2; 3]%Z) ex_lv.
+Example guards_ldef : ldef Z zbin zun zbin_ok Z.ltb Z.leb zof_bool (vec_args Z ex [2; 2; 3]%Z) ex_lv.
 Proof. intros e a [<-|[<-|[<-|[]]]] [<-|[]]; reflexivity. Qed.
-Example guards_constructible : constructible Z zbin zbin_ok Z.ltb Z.leb zof_bool ex [2; 2; 3]%Z.
+Example guards_constructible : constructible Z zbin zun zbin_ok Z.ltb Z.leb zof_bool ex [2; 2; 3]%Z.
 Proof. vm_compute. reflexivity. Qed.
 Example guards_covered : covered Z ex = true.
 Proof. reflexivity. Qed.
@@ -59,7 +61,7 @@ Proof. vm_compute. reflexivity. Qed.
 (* second branch of C03_rejects_partial, and its hypotheses *)
 Example rejects_second_branch :
   within Z Z.leb ex_lims (vec_args Z ex [2; 2; 3]%Z) = true /\
-  all_hold Z zbin zbin_ok Z.ltb Z.leb zof_bool (vec_args Z ex [2; 2; 3]%Z) (flat Z ex_lv) = false.
+  all_hold Z zbin zun zbin_ok Z.ltb Z.leb zof_bool (vec_args Z ex [2; 2; 3]%Z) (flat Z ex_lv) = false.
 Proof. vm_compute. auto. Qed.
 Example limits_direct_instance : within Z Z.leb ex_lims (vec_args Z ex [1; 10; 0]%Z) = true /\
                                  within Z Z.leb ex_lims (vec_args Z ex [1; 11; 0]%Z) = false.
@@ -67,7 +69,7 @@ Proof. vm_compute. auto. Qed.
 Example covers_instance : covers Z ex_lims (ordered_ids Z ex).
 Proof. intros q H. vm_compute in H. destruct H as [<-|[<-|[<-|[]]]]; eexists; eexists; simpl; eauto. Qed.
 Example assertions_direct_instance :
-  all_hold Z zbin zbin_ok Z.ltb Z.leb zof_bool (vec_args Z ex [1; 2; 3]%Z) (flat Z ex_lv) = true.
+  all_hold Z zbin zun zbin_ok Z.ltb Z.leb zof_bool (vec_args Z ex [1; 2; 3]%Z) (flat Z ex_lv) = true.
 Proof. vm_compute. reflexivity. Qed.
 Example verdict_le_boundary : zholds (vec_args Z ex [2; 2; 3]%Z) (ALe (NPrior 0) (NPrior 1)) = Ok true /\
                               zholds (vec_args Z ex [2; 2; 3]%Z) (ALt (NPrior 0) (NPrior 1)) = Ok false.
@@ -128,10 +130,10 @@ Proof. reflexivity. Qed.
 (* an operand that is not a parameter of the model: KeyError, not the fit exception (guard ldef) *)
 Example C03_rejects_refuted :
   exists (lv : levels Z) (vec : list Z),
-    levels_wf Z lv g2 /\ constructible Z zbin zbin_ok Z.ltb Z.leb zof_bool g2 vec /\
+    levels_wf Z lv g2 /\ constructible Z zbin zun zbin_ok Z.ltb Z.leb zof_bool g2 vec /\
     List.length vec = prior_count Z g2 /\
     within Z Z.leb ex_lims (vec_args Z g2 vec) = true /\
-    all_hold Z zbin zbin_ok Z.ltb Z.leb zof_bool (vec_args Z g2 vec) (flat Z lv) = false /\
+    all_hold Z zbin zun zbin_ok Z.ltb Z.leb zof_bool (vec_args Z g2 vec) (flat Z lv) = false /\
     zrun false ex_lims lv g2 vec = VError EKey.
 Proof.
   exists [([], [ALt (NPrior 0) (NPrior 7)])], [1; 2]%Z. split.
@@ -155,9 +157,9 @@ Qed.
 (* an assertion list recorded for a path that is not a level of the model is never looked at (guard levels_wf) *)
 Example C03_levels_flat_refuted :
   exists (lv : levels Z) (vec : list Z),
-    ldef Z zbin zbin_ok Z.ltb Z.leb zof_bool (vec_args Z g2 vec) lv /\
+    ldef Z zbin zun zbin_ok Z.ltb Z.leb zof_bool (vec_args Z g2 vec) lv /\
     zstatus (vec_args Z g2 vec) true lv g2 = Ok tt /\
-    all_hold Z zbin zbin_ok Z.ltb Z.leb zof_bool (vec_args Z g2 vec) (flat Z lv) = false /\
+    all_hold Z zbin zun zbin_ok Z.ltb Z.leb zof_bool (vec_args Z g2 vec) (flat Z lv) = false /\
     zstatus (vec_args Z g2 vec) false lv g2 = Ok tt.
 Proof.
   exists [(["nowhere"], [a01])], [2; 1]%Z. split.
@@ -178,8 +180,57 @@ Proof. vm_compute. reflexivity. Qed.
 (* OUT OF SCOPE, stated for the record: instance_from_path_arguments looks neither at limits nor at the
    assertions of the root level, but does check every child level *)
 Example paths_route_skips_root_and_limits :
-  run_paths Z zbin zbin_ok Z.ltb Z.leb zof_bool false [([], [a01])] g2 (vec_args Z g2 [30; 20]%Z) =
+  run_paths Z zbin zun zbin_ok Z.ltb Z.leb zof_bool false [([], [a01])] g2 (vec_args Z g2 [30; 20]%Z) =
     VOk (IObj "G2" [("a", IV 30%Z); ("b", IV 20%Z)]) /\
   zrun false ex_lims [([], [a01])] g2 [3; 2]%Z = VAssert /\
-  run_paths Z zbin zbin_ok Z.ltb Z.leb zof_bool false [(["g"], [a01])] (NColl [("g", g2)]) (vec_args Z g2 [3; 2]%Z) = VAssert.
+  run_paths Z zbin zun zbin_ok Z.ltb Z.leb zof_bool false [(["g"], [a01])] (NColl [("g", g2)]) (vec_args Z g2 [3; 2]%Z) = VAssert.
 Proof. vm_compute. auto. Qed.
+
+(* ---------- the unary node: Model(G2, a = abs(p0 - p1), b = -p1); assertions on the unary level m.a, on the
+   compound level below it (m.a.self) and one written with unary operands on the root: -p1 < p0 - p1 ---------- *)
+Definition exun : node Z :=
+  NModel "G2" ["a"; "b"]
+    [("a", NUn UAbs "self" (NBin OAdd "p0" "other" (NPrior 0) (NUn UNeg "p1" (NPrior 1))));
+     ("b", NUn UNeg "p1" (NPrior 1))].
+Definition exun_lims : list (limit Z) := [(0, (0%Z, 10%Z)); (1, (0%Z, 10%Z))].
+Definition exun_lv : levels Z :=
+  [(["a"], [ALt (NPrior 0) (NConst 9%Z)]);
+   (["a"; "self"], [ALe (NPrior 1) (NConst 8%Z)]);
+   ([], [ALt (NUn UNeg "x" (NPrior 1)) (NBin OAdd "a" "b" (NPrior 0) (NUn UNeg "y" (NPrior 1)))])].
+
+Example exun_accepted : zrun false exun_lims exun_lv exun [3; 7]%Z = VOk (IObj "G2" [("a", IV 4%Z); ("b", IV (-7)%Z)]).
+Proof. vm_compute. reflexivity. Qed.
+Example exun_unary_level_rejects : zrun false exun_lims exun_lv exun [9; 7]%Z = VAssert.
+Proof. vm_compute. reflexivity. Qed.
+Example exun_below_unary_level_rejects : zrun false exun_lims exun_lv exun [3; 9]%Z = VAssert.
+Proof. vm_compute. reflexivity. Qed.
+Example exun_unary_operands_reject : zrun false exun_lims exun_lv exun [0; 7]%Z = VAssert.
+Proof. vm_compute. reflexivity. Qed.
+Example exun_ignored : zrun true exun_lims exun_lv exun [9; 9]%Z = VOk (IObj "G2" [("a", IV 0%Z); ("b", IV (-9)%Z)]).
+Proof. vm_compute. reflexivity. Qed.
+
+(* guards of the _partial theorems with unary levels *)
+Example exun_guards :
+  levels_wf Z exun_lv exun /\ constructible Z zbin zun zbin_ok Z.ltb Z.leb zof_bool exun [3; 7]%Z /\ covered Z exun = true.
+Proof. split; [intros e [<-|[<-|[<-|[]]]]; reflexivity|]. split; vm_compute; reflexivity. Qed.
+Example exun_ldef : ldef Z zbin zun zbin_ok Z.ltb Z.leb zof_bool (vec_args Z exun [3; 7]%Z) exun_lv.
+Proof. intros e a [<-|[<-|[<-|[]]]] [<-|[]]; reflexivity. Qed.
+
+(* C03_unary_operand / C03_sub_operand / C03_verdict_lt_unary: hypotheses met *)
+Example exun_operand_hyp :
+  is_const Z (NPrior 1) = false /\
+  operand Z zbin zun zbin_ok (vec_args Z exun [3; 7]%Z) (NPrior 1) = Ok 7%Z /\
+  operand Z zbin zun zbin_ok (vec_args Z exun [3; 7]%Z) (NUn UNeg "x" (NPrior 1)) = Ok (-7)%Z /\
+  operand Z zbin zun zbin_ok (vec_args Z exun [3; 7]%Z) (NBin OAdd "a" "b" (NPrior 0) (NUn UNeg "y" (NPrior 1))) = Ok (-4)%Z.
+Proof. vm_compute. repeat split; reflexivity. Qed.
+(* second half of C03_unary_operand: a foreign operand (KeyError) under a unary form *)
+Example exun_operand_err :
+  operand Z zbin zun zbin_ok (vec_args Z exun [3; 7]%Z) (NUn UAbs "x" (NPrior 5)) = Err EKey.
+Proof. vm_compute. reflexivity. Qed.
+(* C03_unary_level_gates_partial on the unary sub-model m.a with its own two levels *)
+Example exun_level_gates_hyp :
+  let sub := NUn UAbs "self" (NBin OAdd "p0" "other" (NPrior 0) (NUn UNeg "p1" (NPrior 1))) in
+  let lv := [([], [ALt (NPrior 0) (NConst 9%Z)]); (["self"], [ALe (NPrior 1) (NConst 8%Z)])] in
+  levels_wf Z lv sub /\ zstatus (vec_args Z exun [3; 9]%Z) true lv sub = Ok tt /\
+  zstatus (vec_args Z exun [3; 9]%Z) false lv sub = Fit.
+Proof. split; [intros e [<-|[<-|[]]]; reflexivity|]. split; vm_compute; reflexivity. Qed.
